@@ -159,7 +159,16 @@ def _shard(sh: Dict[str, Any]) -> Dict[str, Any]:
     from harness.c01 import analyse_program
 
     stubs.install_guard()
-    model = stubs.InspectModel()
+    from vlib import repoenv as _repoenv
+
+    noslice: Optional[str] = None
+    try:
+        model = stubs.InspectModel()
+    except _repoenv.CannotEncode as ex:
+        # inspect_frame no longer has the shape the slicer knows: the symbolic leg cannot be built from this source.
+        # The direct leg (real analysis on really running frames) needs no slice and still runs.
+        model = None
+        noslice = f"symbolic leg not built: {ex}"
     _lowlevel._check_trickery_available()
     saved = _lowlevel.inspect_frame
     rest = {k: sorted(v) for k, v in sh["rest"].items()}
@@ -177,6 +186,18 @@ def _shard(sh: Dict[str, Any]) -> Dict[str, Any]:
             except ai312.Unsupported:
                 continue
             obs = dyn.probe_all(src, desc["kind"])
+            # direct leg, no model involved: what the REAL analysis said about the REALLY running frame at every real
+            # probe (ctypes half included) against the managers' event log
+            async_of = {mid: a for (mid, _, _, a) in P["wmap"].values()}
+            for ob in obs:
+                if "driver_error" in ob:
+                    continue
+                dev = real_deviation(ob, async_of)
+                if dev and sum(1 for c in cex if c.get("op") == "real-probe") < 2:
+                    cex.append({"desc": desc, "src": src, "lasti": ob["lasti"], "op": "real-probe", "why": "real probe: " + dev, "f2": False})
+            if model is None:
+                extra["real_probes_validated"] += len(obs)
+                continue
             why = validate_running(P, obs)
             if why:
                 crash = f"model validation failed for {desc}: {why}\n{src}"
@@ -215,6 +236,17 @@ def _shard(sh: Dict[str, Any]) -> Dict[str, Any]:
                         cex.append({"desc": desc, "src": src, "lasti": r["lasti"], "op": r["op"], "why": r["why"], "f2": r["f2"]})
     finally:
         _lowlevel.inspect_frame = saved
+    direct = [c for c in cex if c.get("op") == "real-probe"]
+    if noslice:
+        crash = crash or noslice
+        if not direct:
+            return {"shard": sh["name"], "crash": noslice}
+    if crash and direct:
+        # the real analysis already contradicts the event log on a really running frame: that is a verdict; the model
+        # mismatch that followed is its consequence, not a harness problem
+        return {"paths": tot["paths"], "queries": tot["queries"], "solver_time": tot["solver_time"], "exhausted": False,
+                "inconclusive": ["stopped at a real-probe violation: " + crash[:160]], "shard": sh["name"], "cex": direct, "samples": samples,
+                "extra": extra, "reached": extra["observation_points"]}
     if crash:
         return {"shard": sh["name"], "crash": crash}
     # a resting offset seen in this shard that the calibration table lacks means the table is incomplete
